@@ -69,8 +69,10 @@ Bogus == -2
 (*          d already say which ids came across                               *)
 (* o.recon  Seq([sent, outs])      reconnect i follows body i: the cursor in  *)
 (*          its Last-Event-ID header, the answers the attempts got: "ok"      *)
-(*          (200 + a body), "terr" (transport error) or the HTTP status as a  *)
-(*          string ("500", "404", ...)                                        *)
+(*          (200 + a body), "terr" (transport error), the HTTP status as a    *)
+(*          string ("500", "404", ...: no body), or a non-2xx, non-transient  *)
+(*          status whose BODY is a JSON-RPC error response, "<status>:<id>"   *)
+(*          with id own | other | null (see ErrBodyAnswers)                   *)
 (* o.rd     messages returned by Connection.Read (index, -1 = not a message   *)
 (*          of the stream: truncated or altered payload)                      *)
 (* o.notes  notifications the session's handler saw (same encoding)           *)
@@ -190,7 +192,18 @@ Shapes == {[ids |-> "all", prime |-> "first"], [ids |-> "all", prime |-> "every"
 \* statuses a reconnect attempt may be answered with besides 200: the transient class and statuses that
 \* are NOT transient: session gone (404), refused (403), a 5xx outside the class (501)
 Statuses == TransientStatus \cup {"404", "403", "501"}
-ASSUME AnswerSet \subseteq {"terr", "ok"} \cup Statuses
+\* ... and the same kind of refusal (a non-2xx status outside the transient class) whose BODY is a JSON-RPC error response
+\* (Content-Type application/json, {"jsonrpc":"2.0","id":..,"error":{..}}), as a server or gateway that speaks JSON-RPC
+\* answers a request it rejects.  The id of that response is a value too: the id of the call pending on the stream ("own"),
+\* an id no call of this client has ("other"), null ("null").  What the property demands is the same as for the bare status:
+\* the stream cannot be resumed, the answer is not one of Transient \cup {"ok"}, so WithinBudget is false and nothing is
+\* promised about the real response - but every call pending on the stream must END (CleanFailure: an error, never a hang).
+\* Whether the client fails the connection as a whole or only the calls of that stream is not demanded; the code as it
+\* stands fails the connection (checkResponse reports an error - for a decodable error body one that wraps ErrRejected -
+\* and handleSSE calls c.fail whatever the error wraps), which is what Recon below says for every answer of this kind.
+ErrBodyIds == {"own", "other", "null"}
+ErrBodyAnswers == {"400:own", "400:other", "400:null", "409:own", "409:other", "409:null", "404:own"}
+ASSUME AnswerSet \subseteq {"terr", "ok"} \cup Statuses \cup ErrBodyAnswers
 ASSUME TailSet \subseteq {"good", "stuck"}
 
 \* A body may open with one complete data-less event that carries the SSE `retry:` field (the delay the server asks for
@@ -384,8 +397,8 @@ Recon ==
            /\ from' = (IF last >= 0 THEN last ELSE wire)
            /\ primed' = (cfg.prime = "every")
            /\ UNCHANGED <<att, failed, outcome>>
-        ELSE \* any other status (404, 403, 501, 400; a transient one without Fix5xx): checkResponse reports an
-             \* error, handleSSE fails the connection
+        ELSE \* any other status (404, 403, 501, 400; a transient one without Fix5xx), with or without a JSON-RPC error
+             \* body (ErrBodyAnswers): checkResponse reports an error, handleSSE fails the connection
            /\ Fail /\ pc' = "done" /\ recon' = Closed(o2) /\ outs' = <<>>
            /\ UNCHANGED <<from, primed, att>>
 
